@@ -329,6 +329,26 @@ func RunMatryer(reg *Registration, cs *Case) (*Violation, RunStats) {
 	}
 	sim.Run()
 	st.Steps, st.Preemptions, st.Blocks = sim.Steps, sim.Preemptions, sim.Blocks
+	fired := map[string]bool{}
+	for _, mode := range cs.Modes {
+		if mode != "" && mode != "echo" {
+			fired["fault:func-"+mode] = true
+		}
+	}
+	for _, ops := range cs.Tasks {
+		for _, op := range ops {
+			if op.Kind == "setfunc" && op.Mode != "echo" {
+				fired["fault:func-"+op.Mode] = true
+			}
+			if op.Kind == "reset" || op.Kind == "resetall" {
+				fired["fault:reset-between-calls"] = true
+			}
+		}
+	}
+	for k := range fired {
+		st.Tags = append(st.Tags, k)
+	}
+	sort.Strings(st.Tags)
 	st.SchedKey = strings.Join(sim.LockOrder, "")
 	cs.Sched.Choices = sim.Choices
 	site := reg.Variant
